@@ -1,7 +1,7 @@
 """C02 - SyncBB finds the optimum of every binary-constraint DCOP."""
 from ..algocheck import run_algo_check, replay  # noqa: F401
 
-SHAPES = ["single", "pair", "pair3", "pairrev", "parallel", "isolated", "path3", "path3d3", "fork3", "triangle", "twocomp", "path4", "star4", "cycle4", "tritail"]
+SHAPES = ["single", "pair", "pair3", "pairrev", "parallel", "isolated", "isomid", "isofirst", "gap4", "path3", "path3d3", "fork3", "triangle", "twocomp", "path4", "star4", "cycle4", "tritail"]
 CLAUSES = {"EXC", "quiet_but_not_all_finished", "quiet_with_incomplete_assignment", "quiet_on_non_optimal_assignment"}
 
 
